@@ -11,8 +11,8 @@ package service
 //@ vars service.EndBlocker$3: requestContextID=github.com/tendermint/tendermint/libs/bytes.HexBytes#0 requestContext=github.com/irismod/service/types.RequestContext#0 providers=[]github.com/cosmos/cosmos-sdk/types.AccAddress#0 totalPrices=github.com/cosmos/cosmos-sdk/types.Coins#0 rawDenom=string#0 err=error#0 err=error#1 requestContext=github.com/irismod/service/types.RequestContext#1 batchState=github.com/irismod/service/types.BatchState#0 stateJSON=[]byte#0
 //@ vars service.EndBlocker: ctx=github.com/cosmos/cosmos-sdk/types.Context#0 k=github.com/irismod/service/keeper.Keeper#0 expiredRequestHandler=func#0 expiredRequestBatchHandler=func#1 providerRequests=map[string][]string#0 newRequestBatchHandler=func#2 provider=string#0 requests=[]string#0 requestsJSON=[]byte#0 str=[]string#1
 //@ props C06 C09 C01 C11 C10 C12 C20 C03
-//@ preserves [C16] both_pending_indexes_list_the_same_requests: idxInv(raw)
-//@ preserves [C16] no_orphan_request_or_response_record: recInv(raw)
+//@ requires [C16] both_pending_indexes_list_the_same_requests: idxInv(raw)
+//@ requires [C16] no_orphan_request_or_response_record: recInv(raw)
 //@ preserves [C10] never_more_batches_than_the_largest_total: cadInv(raw, ghostMaxTot)
 //@ preserves [C12,C16,C08] open_batches_count_their_pending_requests: cntInv(raw)
 //@ modifies raw, bal, cblog
@@ -72,6 +72,9 @@ package service
 //@      (forall d Str :: {bal[requestAcc][d]} bal[requestAcc][d] == old(bal)[requestAcc][d] + (charged ? amt(Tot, d) : 0)))
 //@ ensures [C01,C02] escrow_exactly_backed_kept: (allBase(old(raw), requestContext.ServiceName, requestContext.Providers) || requestContext.State != RUNNING) ==> escInv(raw, bal)
 //@ after escrow_exactly_backed_kept assume earnings_untouched pending_total_grows_by_exactly_what_is_charged
+//@ ensures [C16] every_by_id_marker_has_its_twin: idxAllA(raw)
+//@ ensures [C16] every_by_binding_marker_is_a_twin: idxAllB(raw)
+//@ ensures [C16] no_orphan_request_or_response_record_kept: recInv(raw)
 
 // EndBlocker$1 = expiredRequestHandler(requestID, request): called for every still-pending request of an expired batch.
 //@ func EndBlocker$1
